@@ -26,6 +26,10 @@ def run(chk, facts, info):
     chk.rule('C18-R3', 'every ASSUME destination, every ON/OFF flag and every CPU argument is re-initialised at pass '
              'start or by the SwitchTo_* that registers it', min_instances=15)
     reset.registered_reset(chk, facts, 'C18-R3')
+    chk.rule('C18-R4', 'a code generator reads a core scratch variable that code generators write only if the module '
+             'itself or a core module assigns it; otherwise its output depends on the target that was assembled before '
+             '(another file, or an earlier CPU statement)', min_instances=900)
+    foreign_scratch_rule(chk, facts.program('asl'), 'C18-R4', min_instances=900)
     chk.note('Decided: reset completeness of core state, target interface exhaustiveness of all CPU switch functions, '
              'reset of registered per-target state. Not decided: equality of outputs for concrete file pairs; private '
              'statics of code generators beyond the registered ones.')
